@@ -163,3 +163,15 @@ func Finish(c *vlib.Check, t *Totals, rule string) {
 	)
 	c.Finish()
 }
+
+// RunArgs explores one registered harness once per Arg in 0..args-1 (e.g. answer permutations).
+func RunArgs(c *vlib.Check, prop string, t *Totals, name string, args, bound int, generic ...string) {
+	h := explore.Lookup(name)
+	for a := 0; a < args; a++ {
+		h.Arg = a
+		RunHarnessQuiet(c, prop, t, name, bound, generic...)
+	}
+	if q := t.quietAgg[name]; q != nil {
+		fmt.Printf("explore %-40s %v bound=%d args=%d schedules=%d points=%d outcomes=%d viol=%d\n", name, q["cost_model"], bound, args, q["schedules"], q["scheduling_points"], q["distinct_outcomes"], q["violating_schedules"])
+	}
+}
